@@ -59,15 +59,17 @@ Definition comp_shapes (E:env) (s:shape) (c:comp) : list term :=
   | CNot refs | CNode refs | CProperty refs => refs
   | CAnd ls | COr ls | CXone ls => concat ls
   | CQualified refs _ _ disjoint => refs ++ (if disjoint then flat_map (sibling_refs E (sid s)) refs else [])
+  | CClosed _ _ => []
   end.
 
 Section WithTrig.
 Variable trig : trig_t.
+Variable W : world.
 
 Lemma evalc_errs (P:exn -> Prop) nested g E s fvs ep c :
   P Reportable ->
   (forall r s' v, In r (comp_shapes E s c) -> lookup E r = Some s' -> errs_in P (nested s' v ep)) ->
-  errs_in P (evalc trig nested g E s fvs ep c).
+  errs_in P (evalc trig W nested g E s fvs ep c).
 Proof.
   intros HP Hn. destruct c; cbn [evalc comp_shapes] in *.
   - apply errs_ok.
@@ -122,6 +124,10 @@ Proof.
     destruct disjoint; [|injection Hsibs as <-; destruct Hsib].
     destruct (lookup_all_in _ _ _ Hsibs sib Hsib) as (r2 & Hr2 & El2).
     eapply Hn; eauto. apply in_app_iff. right. apply in_flat_map. exists r. auto.
+  - destruct (negb closed); [apply errs_ok|].
+    apply bind_errs; [|intros; apply errs_ok]. apply mapM_errs. intros r _.
+    destruct (lookup E r) as [ps|]; [|apply errs_err; auto].
+    destruct (is_property_shape ps); [apply errs_ok|apply errs_err; auto].
 Qed.
 
 Lemma loop_errs (P:exn -> Prop) o top s ev : (forall c, In c (scomps s) -> errs_in P (ev c)) ->
@@ -156,7 +162,7 @@ Proof. intros e H Heq. subst e. exact (eval_path_never_oof g p false 0 f H). Qed
 
 Lemma vshape_not_oof o g E : forall fuel top ep s foci,
   e_max_depth o < fuel + length ep -> (top = true -> 0 < fuel) ->
-  errs_in not_oof_exn (vshape trig fuel o g E top ep s foci).
+  errs_in not_oof_exn (vshape trig W fuel o g E top ep s foci).
 Proof.
   induction fuel as [|fuel IH]; intros top ep s foci Hf Ht; cbn [vshape];
     (destruct (deact s); [apply errs_ok|]); (destruct (isnil foci); [apply errs_ok|]);
@@ -174,10 +180,10 @@ Qed.
 (* C19: validation of a shape always returns a report or a documented failure -
    never runs out of the model's fuel - for arbitrary cyclic shape references and data. *)
 Theorem validate_top_total o sg g E s explicit :
-  errs_in not_oof_exn (validate_top trig o sg g E s explicit).
+  errs_in not_oof_exn (validate_top trig W o sg g E s explicit).
 Proof.
   assert (H : forall foci, errs_in not_oof_exn
-             (vshape trig (fuel_of (eopts_of o)) (eopts_of o) g E true [] s foci)).
+             (vshape trig W (fuel_of (eopts_of o)) (eopts_of o) g E true [] s foci)).
   { intros foci. apply vshape_not_oof; unfold fuel_of; simpl; lia. }
   unfold validate_top. destruct (deact s); [apply errs_ok|].
   destruct explicit; [apply H|]. destruct (isnil _); [apply errs_ok|].
@@ -185,20 +191,20 @@ Proof.
 Qed.
 
 Lemma run_shapes_total o sg g E explicit : forall shapes nc acc,
-  errs_in not_oof_exn (run_shapes trig o sg g E shapes explicit nc acc).
+  errs_in not_oof_exn (run_shapes trig W o sg g E shapes explicit nc acc).
 Proof.
   induction shapes as [|s rest IH]; intros nc acc; cbn [run_shapes]; [apply errs_ok|].
   apply bind_errs; [apply validate_top_total|]. intros cr _. cbv zeta.
   destruct (abort o && _); [apply errs_ok|apply IH].
 Qed.
 
-Theorem validate_total o sg g E : errs_in not_oof_exn (validate trig o sg g E).
+Theorem validate_total o sg g E : errs_in not_oof_exn (validate trig W o sg g E).
 Proof. unfold validate. apply run_shapes_total. Qed.
 
 (* ---- loud failure: a nested evaluation entered at or beyond the limit fails ---- *)
 Theorem vshape_too_deep o g E fuel ep s foci :
   deact s = false -> foci <> [] -> e_max_depth o <= length ep ->
-  vshape trig fuel o g E false ep s foci = Err TooDeep.
+  vshape trig W fuel o g E false ep s foci = Err TooDeep.
 Proof.
   intros Hd Hf Hl. destruct fuel; cbn [vshape]; rewrite Hd;
     (destruct foci; [congruence|]); cbn [isnil negb andb];
@@ -255,7 +261,7 @@ Qed.
 Lemma vshape_not_too_deep o g E rank : ranked E rank ->
   forall fuel top ep s foci, In s E ->
   length ep + rank (sid s) < e_max_depth o ->
-  errs_in not_too_deep (vshape trig fuel o g E top ep s foci).
+  errs_in not_too_deep (vshape trig W fuel o g E top ep s foci).
 Proof.
   intros Hr. induction fuel as [|fuel IH]; intros top ep s foci Hs Hd; cbn [vshape];
     (destruct (deact s); [apply errs_ok|]); (destruct (isnil foci); [apply errs_ok|]);
@@ -275,11 +281,11 @@ Qed.
    validating a shape never raises 'validation path too deep'. *)
 Theorem validate_top_below_limit o sg g E rank s explicit :
   ranked E rank -> In s E -> rank (sid s) < max_depth o ->
-  errs_in not_too_deep (validate_top trig o sg g E s explicit).
+  errs_in not_too_deep (validate_top trig W o sg g E s explicit).
 Proof.
   intros Hr Hs Hd.
   assert (H : forall foci, errs_in not_too_deep
-             (vshape trig (fuel_of (eopts_of o)) (eopts_of o) g E true [] s foci)).
+             (vshape trig W (fuel_of (eopts_of o)) (eopts_of o) g E true [] s foci)).
   { intros foci. eapply vshape_not_too_deep; eauto. }
   unfold validate_top. destruct (deact s); [apply errs_ok|].
   destruct explicit; [apply H|]. destruct (isnil _); [apply errs_ok|].
